@@ -373,6 +373,8 @@ impl ConsumeUnverifiedBlockProcessor {
                 .proposal_table
                 .finalize(origin_proposals, tip_header.number());
             fork.detached_proposal_id = detached_proposal_id;
+            #[cfg(feature = "verif-hooks")]
+            crate::verif::record_dropped_proposals(tip_header.hash(), &fork.detached_proposal_id);
 
             let new_snapshot =
                 self.shared
@@ -891,6 +893,11 @@ impl ConsumeUnverifiedBlockProcessor {
             .proposal_table
             .finalize(origin_proposals, target_tip_header.number());
         fork.detached_proposal_id = detached_proposal_id;
+        #[cfg(feature = "verif-hooks")]
+        crate::verif::record_dropped_proposals(
+            target_tip_header.hash(),
+            &fork.detached_proposal_id,
+        );
 
         let new_snapshot = self.shared.new_snapshot(
             target_tip_header,
